@@ -337,7 +337,7 @@ func vfGenOutChunk(rt *rapid.T) []byte {
 		return []byte(rapid.SampledFrom([]string{"**\x18B0", "**\x18B00000000000", "rz waiting to receive.**\x18B0100000023be5", "**\x18B0100000023BE50\r", "**\x18B2100000023be50",
 			"**\x18B0100000023be50\r\x8a\x11\x18\x18\x18\x18\x18\x18\x18\x18\x18\x18", "sz: cannot open x: No such file\r\n**\x18B00000000000000\r", "\x18\x18\x18\x18\x18\x08\x08\x08\x08\x08", "**\x18B08"}).Draw(rt, "zm"))
 	case 6: // OSC 52 fragments
-		return []byte(rapid.SampledFrom([]string{"\x1b]52;c;aGVsbG8=\x07", "\x1b]52;", "\x1b]52;c;aGVs", "bG8=", "\x07", "\x1b\\", "\x1b]52;p;", "\x1b]52;x;YQ==\x07", "\x1b]52;c;!!!\x07"}).Draw(rt, "osc"))
+		return []byte(rapid.SampledFrom([]string{"\x1b]52;c;aGVsbG8=\x07", "\x1b]52;", "\x1b]52;c", "\x1b]52;p", "\x1b]52;c;aGVs", "bG8=", "\x07", "\x1b\\", "\x1b]52;p;", "\x1b]52;x;YQ==\x07", "\x1b]52;c;!!!\x07"}).Draw(rt, "osc"))
 	case 7: // trace-log marker near-misses
 		return []byte(rapid.SampledFrom([]string{"<ENABLE_TRZSZ_TRACE_LOG", "ENABLE_TRZSZ_TRACE_LOG>", "<enable_trzsz_trace_log>", "<DISABLE_TRZSZ_TRACE_LOG", "<ENABLE_TRZSZ_TRACE_LOG >"}).Draw(rt, "tl"))
 	case 8:
